@@ -204,6 +204,11 @@ def stream_hms(ctx, athlib):
             js_ok = abs(Fraction(j[1]) - mo[1]) <= TC.FTOL * max(1, abs(mo[1]), sc)
         if not py_ok: npm += 1
         if not js_ok: njm += 1
+        # the two ports do the same double arithmetic in the same order: on the shared domain their values are the SAME double
+        if py_ok and js_ok and mo[0] in ('i', 'f') and abs(mo[1]) < 2 ** 52 and not same_value(py_canon(pr), j, tol=False):
+            ndis += 1
+            ctx.fail('js:parseHms', [t], 'python: %s' % show(py_canon(pr)), 'js: %s' % show(j),
+                     note='ports differ in the last place (model: %s)' % (model[t],), replay_py=replay_both('athlib.parse_hms(%r)' % (t,), ['hms', t]))
         if not (py_ok and js_ok) and not same_value(py_canon(pr), j, tol=True):
             ndis += 1
             ctx.fail('js:parseHms', [t], 'python: %s' % show(py_canon(pr)), 'js: %s' % show(j),
